@@ -64,6 +64,13 @@ class Ty:
 INT, BOOL, REAL = Ty("Int", I), Ty("Bool", B), Ty("Real", R)
 TUP, META, LAYER, STR = Ty("Tup", TupS), Ty("Meta", MetaS), Ty("Layer", LayerS), Ty("Str", StrS)
 FIELD, VAL = Ty("Field", FieldS), Ty("Val", ValS)
+# integer extended by +inf / -inf (`math.inf` used as the neutral element of a running minimum / maximum)
+_X = z3.Datatype("XInt")
+_X.declare("fin", ("xval", I))
+_X.declare("pinf")
+_X.declare("ninf")
+XIntS = _X.create()
+XINT = Ty("XInt", XIntS)
 NONE = Ty("None", None)
 EMPTYLIST = Ty("EmptyList", None)   # `[]` whose element type is fixed at first use
 EMPTYDICT = Ty("EmptyDict", None)   # `{}` (a Meta when stored in a metadata table, else an empty Map)
@@ -167,7 +174,7 @@ def parse_ty(s, aliases=None):
     if s in aliases:
         return parse_ty(aliases[s], aliases) if isinstance(aliases[s], str) else aliases[s]
     base = {"Int": INT, "Node": INT, "Bool": BOOL, "Real": REAL, "Tup": TUP, "NodeSeq": TUP, "Meta": META,
-            "Layer": LAYER, "Str": STR, "Field": FIELD, "Val": VAL, "None": NONE}
+            "Layer": LAYER, "Str": STR, "Field": FIELD, "Val": VAL, "None": NONE, "XInt": XINT}
     if s in base:
         return base[s]
     head, rest = s.split("[", 1)
@@ -250,6 +257,13 @@ def fresh_value(ty, hint):
     if ty == NONE:
         return sv_none()
     return scalar(ty, fresh(hint, ty.sort()))
+
+
+def x_lt(a, b):
+    """a < b on extended integers (z3 terms of sort XInt)."""
+    X = XIntS
+    return z3.Or(z3.And(X.is_ninf(a), z3.Not(X.is_ninf(b))), z3.And(X.is_pinf(b), z3.Not(X.is_pinf(a))),
+                 z3.And(X.is_fin(a), X.is_fin(b), X.xval(a) < X.xval(b)))
 
 
 def to_real(v):
